@@ -41,7 +41,9 @@ def root_queue(v, tier, seed):
     drv = build_driver("drv_root")
     for i in range(1 if tier == "quick" else 4):
         tr = os.path.join(rundir(PROP), "root_%d.ndjson" % i)
-        rc, out, err = sh([drv, tr, str(seed * 100 + i), str(1 + i % 3), "1" if tier == "quick" else "2"], timeout=600)
+        # thorough: also let the pool threads hit their 5 s park timeout and check the budget comes back
+        rc, out, err = sh([drv, tr, str(seed * 100 + i), str(1 + i % 3), "1" if tier == "quick" else "2",
+                           "0" if tier == "quick" else "1"], timeout=900)
         if rc in (2, 70, 71):
             what = {2: "global-queue item did not run exactly once", 70: "crash", 71: "hang: items of a global queue were stranded although the pool could grow"}[rc]
             v.violation("%s: %s" % (what, err.strip()[-300:]), save_replay(PROP, "root_fail_%d.ndjson" % i, src=tr) if os.path.exists(tr) else tr)
